@@ -45,7 +45,7 @@ class ManualExecutor(Executor):
         self.name = name
         self.submitted = []  # (fn, args, kwargs, future)
         self.shutdowns = []
-        self._lock = threading.Lock()
+        self.wake = threading.Event()
         self.refuse = False
 
     def submit(self, fn, *args, **kwargs):
@@ -55,6 +55,7 @@ class ManualExecutor(Executor):
         f.fn, f.args, f.kwargs = fn, args, kwargs
         self.submitted.append(f)
         self.ev.add("delegate_submit", tag=f.tag, fn=fn, args=args, kwargs=kwargs, fut=f)
+        self.wake.set()
         return f
 
     def shutdown(self, wait=True, **kwargs):
